@@ -2,7 +2,7 @@
 network (Network, NetworkLink)."""
 from __future__ import annotations
 
-from props.c07_core import Backend, Drv, Entity, P, R
+from props.c07_core import Backend, Drv, Entity, P, PI, R
 
 from happysimulator.components.load_balancer import (ConsistentHash, HealthChecker, IPHash, LeastConnections,
                                                      LeastResponseTime, LoadBalancer, PowerOfTwoChoices, Random,
@@ -102,7 +102,10 @@ class HealthCheckerDrv(Drv):
         self.b1 = _Flaky("b1", cfg.L)
         self.b2 = _Flaky("b2", cfg.L)
         self.lb = LoadBalancer("lb", backends=[self.b1, self.b2])
-        self.hc = HealthChecker("hc", load_balancer=self.lb, interval=P(1.0), timeout=P(0.75), healthy_threshold=1,
+        interval, timeout = PI(1.0, 0.75)
+        if timeout >= interval:          # the checker requires timeout < interval
+            interval, timeout = timeout, interval
+        self.hc = HealthChecker("hc", load_balancer=self.lb, interval=interval, timeout=timeout, healthy_threshold=1,
                                 unhealthy_threshold=1)
         return [self.b1, self.b2, self.lb, self.hc]
 
@@ -127,9 +130,10 @@ class JobSchedulerDrv(Drv):
 
     def build(self, cfg):
         self.worker = Backend("worker", cfg.L, self.h.out)
-        self.js = JobScheduler("jobs", tick_interval=P(0.5))
-        self.js.add_job(JobDefinition(name="a", target=self.worker, event_type="job_a", interval=P(1.0), priority=1))
-        self.js.add_job(JobDefinition(name="b", target=self.worker, event_type="job_b", interval=P(1.0), priority=2,
+        job_interval, tick = PI(1.0, 0.5)
+        self.js = JobScheduler("jobs", tick_interval=tick)
+        self.js.add_job(JobDefinition(name="a", target=self.worker, event_type="job_a", interval=job_interval, priority=1))
+        self.js.add_job(JobDefinition(name="b", target=self.worker, event_type="job_b", interval=job_interval, priority=2,
                                       depends_on=["a"]))
         return [self.worker, self.js]
 
